@@ -12,7 +12,7 @@ use serde_json::{json, Value};
 use std::collections::HashMap;
 use std::time::Duration;
 
-const OVERRIDES: [usize; 4] = [0, 1, 100, 70_000];
+const OVERRIDES: [usize; 5] = [0, 1, 100, 70_000, usize::MAX];
 
 /// a body of exactly `len` bytes valid for `kind` (None if impossible)
 fn make_body(rng: &mut Rng, kind: &str, len: usize, uid: u64) -> Option<(Vec<u8>, String, Value)> {
@@ -94,7 +94,7 @@ pub fn run(seed: u64, w: &Work) -> Report {
     let mut rep = Report::new(
         "C11",
         "E2-body-limit",
-        "servers with default limit in {0,1,7,1024,65536} x endpoints with override in {none,0,1,100,70000} x extractors \
+        "servers with default limit in {0,1,7,1024,65536} x endpoints with override in {none,0,1,100,70000,usize::MAX} x extractors \
          {TypedBody json, TypedBody urlencoded, UntypedBody, StreamingBody, MultipartBody}; body length L in {0, limit-1, limit, limit+1, \
          2*limit, limit+65536, (thorough) 5 MB, random}; framing: content-length in one write / dribbled, chunked with 1-byte chunks, \
          random chunks, a chunk boundary exactly at the limit, one huge chunk; oracle: L <= limit => 200 and length+hash intact, \
@@ -136,7 +136,11 @@ pub fn run(seed: u64, w: &Work) -> Report {
                             };
                             for k in 0..per {
                                 let mut rng = Rng::derive(seed, "c11", (default * 100 + ki * 10 + ci) as u64 + if mode_tag == "det" { 0 } else { 7777 }, k as u64);
-                                let lens: Vec<(usize, &str)> = vec![
+                                let lens: Vec<(usize, &str)> = if limit > (1 << 40) {
+                                    // an effectively unlimited endpoint: every body we can send is within it
+                                    vec![(0, "zero"), (1, "random-below"), (rng.usize(5000), "random-below"), (70_000 + rng.usize(70_000), "random-below")]
+                                } else {
+                                    vec![
                                     (0, "zero"),
                                     (limit.saturating_sub(1), "limit-1"),
                                     (limit, "limit"),
@@ -146,7 +150,8 @@ pub fn run(seed: u64, w: &Work) -> Report {
                                     (rng.usize(limit + 1), "random-below"),
                                     (limit + 1 + rng.usize(3 * limit + 200), "random-above"),
                                     (5 << 20, "5MB"),
-                                ];
+                                ]
+                                };
                                 let (len, lclass) = loop {
                                     let c = *rng.pick(&lens);
                                     if c.1 == "5MB" && !(huge && rng.chance(1, 20)) {
